@@ -76,3 +76,43 @@ def relevant_table(path):
 
 def elf_id(s):
     return s.name + (("@@" if s.default else "@") + s.version if s.version else "")
+
+
+def dwarf_subprograms(path):
+    """{name: [(n_formal_parameters, has_unspecified_parameters), ...]} for the DW_TAG_subprogram DIEs that carry
+    DW_AT_external and are definitions (have DW_AT_low_pc), read with readelf (binutils): what the *compiler* recorded."""
+    out = subprocess.run(["readelf", "--debug-dump=info", path], stdout=subprocess.PIPE, stderr=subprocess.DEVNULL).stdout.decode(errors="replace")
+    res = {}
+    cur = None     # [depth, name, external, lowpc, nparams, variadic]
+    def flush():
+        if cur and cur[1] and cur[2] and cur[3]:
+            res.setdefault(cur[1], []).append((cur[4], cur[5]))
+    for l in out.split("\n"):
+        m = re.match(r"^\s*<(\d+)><[0-9a-f]+>: Abbrev Number: \d+ \((DW_TAG_\w+)\)", l)
+        if m:
+            depth, tag = int(m.group(1)), m.group(2)
+            if cur and depth <= cur[0]:
+                flush()
+                cur = None
+            if tag == "DW_TAG_subprogram" and cur is None:
+                cur = [depth, None, False, False, 0, False]
+            elif cur and depth == cur[0] + 1:
+                if tag == "DW_TAG_formal_parameter":
+                    cur[4] += 1
+                elif tag == "DW_TAG_unspecified_parameters":
+                    cur[5] = True
+            cur_depth = depth
+            in_sub = cur is not None and depth == cur[0]
+            continue
+        if cur and "in_sub" in dir() and in_sub:
+            a = re.match(r"^\s*<[0-9a-f]+>\s+(DW_AT_\w+)\s*:\s*(.*)$", l)
+            if a:
+                at, val = a.group(1), a.group(2)
+                if at == "DW_AT_name":
+                    cur[1] = val.split("):")[-1].strip() if "):" in val else val.strip()
+                elif at == "DW_AT_external":
+                    cur[2] = True
+                elif at == "DW_AT_low_pc":
+                    cur[3] = True
+    flush()
+    return res
